@@ -331,3 +331,39 @@ func VC_C08_error_typed_nil() {
 		return vgErr == es[i]
 	}, "C08.error-typed-nil")
 }
+
+var vgInt8 int8
+var vgI64 int64
+
+// VC_C08_wrong_type: a value whose type is not the variable's (though convertible to it)
+// is rejected by a panic and the variable keeps its value - it is never stored in a
+// converted, different form.
+func VC_C08_wrong_type() {
+	vEnv()
+	vgInt8, vgStr, vgInt, vgI64 = 7, "orig", 9, 11
+	b := Create()
+	k := verifChoice("case", 4)
+	panicked := false
+	func() {
+		defer func() {
+			if r := recover(); r != nil {
+				panicked = true
+			}
+		}()
+		switch k {
+		case 0:
+			b.Var(&vgInt8).Set(300)
+		case 1:
+			b.Var(&vgStr).Set(65)
+		case 2:
+			b.Var(&vgInt).Set(2.75)
+		case 3:
+			b.Var(&vgI64).Set(^uint64(0))
+		}
+	}()
+	verifAssert(panicked, "C08.wrong-type.rejected")
+	verifAssert(vgInt8 == 7 && vgStr == "orig" && vgInt == 9 && vgI64 == 11, "C08.wrong-type.variable-untouched")
+	b.Reset()
+	verifAssert(vgInt8 == 7 && vgStr == "orig" && vgInt == 9 && vgI64 == 11, "C08.wrong-type.reset-leaves-untouched")
+	verifReached("C08.wrong-type")
+}
